@@ -120,6 +120,9 @@ def gen_worker(args):
         is_bytes = rng.random() < 0.3
         kinds = rng.choice([("bytes",), ("bytes", "bits")]) if is_bytes else rng.choice([("str",), ("str", "regex"), ("str", "regex")])
         spec = gen_grammar.gen_spec(rng, kinds=kinds, depth=rng.randint(1, 3), n_nt=rng.randint(1, 4))
+        if rng.random() < 0.2:
+            spec = gen_grammar.gen_nullable_spec(rng)
+            is_bytes = 'b"' in spec
         try:
             fan = Fandango(spec)
             g = fan.grammar
@@ -158,7 +161,8 @@ def gen_worker(args):
             acc = len(same) > 0
             gx.announce_tree(wt)
             terms.append(f"({gx.term()}, {rx.term}, {coq_string('<start>')}, {rx.input_term(w)}, {export.export_tree(wt)}, {coq_bool(acc)}, {coq_nat(FUEL)})")
-            infos.append({"spec": spec, "word": repr(w), "witness_from": src, "witness": str(export.tree_py(wt))[:300], "impl_accepts": acc})
+            infos.append({"spec": spec, "word": repr(w), "witness_from": src, "witness": str(export.tree_py(wt))[:300], "impl_accepts": acc,
+                          "has_regex": len(rx.regexes) > 0})
             res.count(("member", spec, repr(w)), nontrivial=len(w) >= 2)
             res.bump(src)
             res.bump("impl_accepts" if acc else "impl_rejects")
@@ -261,6 +265,10 @@ def correspondence(res):
         if v in (2, 3) and KNOWN[v][0] in sigs:
             res.known(f"{KNOWN[v][0]}: {KNOWN[v][1]}")
             res.bump("known_" + KNOWN[v][0])
+        elif v == 7 and infos[i]["has_regex"]:
+            # the property's class excludes regex terminals that can be split in more than one way between neighbouring symbols;
+            # only re.match's greedy match is considered by the parser (and by the faithful model)
+            res.bump("outside_stated_class_regex_split")
         elif v == 6 or v is None:
             broken = broken or Broken("a witness was not certified as a member (harness/sampler error) or a case file failed", repr(infos[i]))
         elif len(res.violations) < 3:
